@@ -23,7 +23,7 @@ CHECKS = {
                 text="FramesExact (data = exactly the live frames, contiguous, in call order) is a TLC invariant on the complete state graph, i.e. at every instruction boundary of every history; the real VM's word count and every activation's base/size are compared after every call in S->I and bound in I->S traces."),
     "C01": dict(level="translation_validation", ref="5 (C01), 4.3",
                 technique="trace validation of real compile-and-run executions against the TLA+ reference semantics TheoSem.tla (TLC, TheoSemTrace.tla), seeded program generator",
-                text="Per generated program the real compiler's bytecode is run on the real VM and TLC must explain the end of the run with TheoSem on the generator's core AST: the reference run ends exactly when the VM does (HALT/STOP) and every user variable of every live activation has the reference value; for divergent programs neither side may finish within proportional budgets. Free layouts with user macros, includes at token boundaries, keyword spellings, nested calls, jumps into/out of loops are generated."),
+                text="Per generated program the real compiler's bytecode is run on the real VM and TLC must explain the end of the run with TheoSem on the generator's core AST: the reference run ends exactly when the VM does (HALT/STOP) and every user variable of every live activation has the reference value; for divergent programs neither side may finish within proportional budgets. The same program is run a second time uninterrupted (execute() on a fresh VM, no stepping mode) and a sample through the repository's command line tool (bin/theo, built by the harness project); both end states are further events the reference run must explain. A third of the programs also go through the model leg TheoRefine (ideal machine of TheoVMCore on the real bytecode, no real VM). Free layouts with user macros, includes at token boundaries, keyword spellings, nested calls, jumps into/out of loops are generated."),
     "C07": dict(level="translation_validation", ref="5 (C07), 4.3",
                 technique="trace validation of complete real stepping runs against TheoSem.tla line events (TLC, TheoSemTrace.tla)",
                 text="For generated one-statement-per-line sources (several files, sugar, calls, loops, jumps) every stop of the real stepping run is an event that TLC must explain as TheoSem's current line event (file and line) with the reference value of every user variable of every live activation; a missing, extra or misplaced stop or a wrong value anywhere in the run rejects the trace."),
